@@ -27,7 +27,7 @@ ASSUMPTIONS = [
     "hashlib and the xxhash C library are the reference implementations of the standard algorithms",
     "files >= 1 MiB live on tmpfs; reads return full chunks (short reads are not simulated)",
 ]
-BUDGET = {"quick": (900, 4), "thorough": (48000, 16)}
+BUDGET = {"quick": (900, 4), "thorough": (144000, 16)}
 REQUIRED = ["multi_chunk", "multi_format", "c4_padded", "len0", "len_2^20", "len_2^20+1", "len_2^20-1", "inplace_edit"]
 
 MIB = 1 << 20
